@@ -63,6 +63,18 @@ def make (spec0):
         wires.append ([0, 1, 3])
         if gnd and nodes [0][2] == 0 and nodes [1][2] == 0:
             nodes [1] = nodes [1] + np.array ([0, 0, scale])
+    rj = np.random.default_rng ([spec0 ['seed'], 123, spec0 ['i']])
+    if rj.random () < 0.2:
+        # a one-segment jumper shorter than every other segment: it alone sets the matching tolerance
+        a = int (rj.integers (0, K))
+        q = nodes [a] + unit (rj) * scale * float (rj.uniform (0.05, 0.3))
+        if gnd:
+            q [2] = abs (q [2]) + (0.05 * scale if nodes [a][2] == 0 else 0)
+            if nodes [a][2] == 0:
+                q [2] = max (q [2], 0.05 * scale)
+        nodes.append (q)
+        wires.append ([a, len (nodes) - 1, 1])
+        K += 1
     seg_min = min (np.linalg.norm (nodes [a] - nodes [b]) / n for a, b, n in wires)
     tol  = 1e-3 * seg_min
     # wire radius below and above the matching tolerance (1e-3 of the shortest segment)
